@@ -276,3 +276,41 @@ def lifecycle_twice(mw=2, timeout=None):
     return P(f"lifecycle2-w{mw}-t{timeout}", pool(max_workers=mw, timeout=timeout),
              [NEW, sub("a", "ok", 1), WAIT, shutdown(True), NEW, sub("b", "ok", 2), WAIT,
               shutdown(True)])
+
+
+def submit_vs_shutdown(mw=1, wait=True):
+    """A second thread submits while the first one shuts the executor down: the submit either
+    raises ShutdownExecutorError or its task runs."""
+    return P(f"submit-vs-shutdown-w{mw}-{wait}", pool(max_workers=mw),
+             [NEW, sub("a", "ok", 1), shutdown(wait)],
+             [["submit_expect", "b"]])
+
+
+def forced_after_nowait(mw=2, reusable=False):
+    """Forced shutdown arriving on an executor already flagged as shutting down."""
+    ops = [NEW, sub("a", "ok", 1), ["result", "a"], sub("g", "gate"), sub("q", "ok", 2),
+           ["shutdown", False, False]]
+    if reusable:
+        ops += [["reuse", dict(max_workers=mw, kill_workers=True)], sub("n", "ok", 5),
+                ["result", "n"], shutdown(True)]
+    else:
+        ops += [["shutdown", True, True]]
+    return P(f"forced-after-nowait-w{mw}-r{reusable}", pool("reusable" if reusable else "plain", mw),
+             ops)
+
+
+def forced_escalation(mw=2):
+    """One thread blocked in shutdown(wait=True), another escalates with kill_workers=True."""
+    return P(f"forced-escalation-w{mw}", pool(max_workers=mw),
+             [NEW, sub("g", "gate"), sub("q", "ok", 2), ["shutdown", True, False]],
+             [["sleep", 0.01], ["shutdown", True, True]])
+
+
+def saturate_partial_drain(mw=3, timeout=0.05):
+    """One long task keeps a worker, the others idle out; later long tasks must bring the
+    pool back to max_workers parallel bodies."""
+    keys = [f"g{i}" for i in range(mw)]
+    ops = [NEW, sub(keys[0], "gate"), ["sleep", 0.3]]
+    ops += [sub(k, "gate") for k in keys[1:]] + [["expect_inside", mw]]
+    ops += [["release", k] for k in keys] + [WAIT, shutdown(True)]
+    return P(f"saturate-partial-drain-w{mw}", pool(max_workers=mw, timeout=timeout), ops)
